@@ -28,6 +28,10 @@
    resubmissions of an earlier transaction's exact bytes in the same block, a later block, or
    after a restart.
 
+   The signer SET of a transaction is fixed per kind here; which accounts must sign a transaction
+   whose messages have several signers each (Tx.GetSigners: order-preserving de-duplicated
+   concatenation) is the second machine of C15, AnteSigners.tla.
+
    Named deviations: none from the statement. Not generated: malformed amino envelopes and
    self-inconsistent multisignature bit arrays (C44), expired sessions and spend limits (C16). *)
 EXTENDS Integers, Sequences, FiniteSets, TLC, Json
